@@ -310,26 +310,35 @@ def rect_table(hdr, keycols, keys, tag, extra=True):
 SHAPES = ('full', 'nokey', 'noval', 'long', 'empty')
 
 
-def ragged_rows(alphabet, tag, i):
+def ragged_rows(alphabet, tag, i, shapes=SHAPES):
     """All variants of row i of a ragged table with header (id, k, v): full (id, key, v); nokey (id,) - short
     before the key; noval (id, key) - short after the key; long (id, key, v, extra); empty ()."""
     rid, val = '%s%d' % (tag, i), '%sv%d' % (tag, i)
     out = []
-    for k in alphabet:
-        out.append((rid, k, val))
-    out.append((rid,))
-    for k in alphabet:
-        out.append((rid, k))
-    for k in alphabet:
-        out.append((rid, k, val, '%sx%d' % (tag, i)))
-    out.append(())
+    if 'full' in shapes:
+        for k in alphabet:
+            out.append((rid, k, val))
+    if 'nokey' in shapes:
+        out.append((rid,))
+    if 'noval' in shapes:
+        for k in alphabet:
+            out.append((rid, k))
+    if 'long' in shapes:
+        for k in alphabet:
+            out.append((rid, k, val, '%sx%d' % (tag, i)))
+    if 'empty' in shapes:
+        out.append(())
     return out
 
 
-def ragged_tables(hdr, alphabet, tag, maxrows):
+def ragged_tables(hdr, alphabet, tag, maxrows, shapes=SHAPES, sorted_only=False):
+    """All ragged tables with <= maxrows rows; sorted_only: keep those whose key cells (column 1, present in
+    every row of the shapes used) are non-decreasing under the reference order."""
     out = []
     for n in range(maxrows + 1):
-        for rows in itertools.product(*[ragged_rows(alphabet, tag, i) for i in range(n)]):
+        for rows in itertools.product(*[ragged_rows(alphabet, tag, i, shapes) for i in range(n)]):
+            if sorted_only and not ref.is_sorted([r[1] for r in rows]):
+                continue
             out.append([tuple(hdr)] + list(rows))
     return out
 
@@ -398,6 +407,14 @@ def pair_space(tier, seed):
     V['ragged'] = dict(L=ragged_tables(('lid', 'k', 'lv'), ralpha, 'L', 2),
                        R=ragged_tables(('rid', 'k', 'rv'), ralpha, 'R', 2),
                        kw=[{'key': 'k'}, {'key': 'k', 'missing': MISS}])
+    # presorted=True x ragged rows x missing: inputs already in reference key order; only shapes in which the
+    # key cell exists (full, short after the key, long), so that "sorted by the key" does not depend on padding
+    palpha = [None, r['i1'], r['s1']]
+    keyed = ('full', 'noval', 'long')
+    V['ragged-presorted'] = dict(L=ragged_tables(('lid', 'k', 'lv'), palpha, 'L', 2, keyed, True),
+                                 R=ragged_tables(('rid', 'k', 'rv'), palpha, 'R', 2, keyed, True),
+                                 kw=[{'key': 'k', 'presorted': True},
+                                     {'key': 'k', 'presorted': True, 'missing': MISS}])
     if tier == 'thorough':
         k6 = key_tuples(spaces.K6(seed), 3)
         V['key-K6'] = dict(L=_rect(('k', 'lid'), [0], k6, 'L'), R=_rect(('k', 'rid'), [0], k6, 'R'),
@@ -417,3 +434,93 @@ def nontrivial_pair(left, right, kw):
     lonely = (any(not any(keq(a, b) for b in rk) for a in lk) or
               any(not any(keq(a, b) for a in lk) for b in rk))
     return match and lonely
+
+
+# ---------------------------------------------------------------------------------------------
+# field-NAMING axis: key / non-key field names that are substrings, prefixes, superstrings of one another or
+# equal after str() (int-valued header fields), a right non-key field named like the left key, ...
+# A scheme = (left header, left key columns, right header, right key columns, keyword-argument forms).
+# ---------------------------------------------------------------------------------------------
+
+def _place(keynames, others, positions):
+    """Header with the key names at `positions` (in key order) and `others` filling the remaining columns."""
+    width = len(keynames) + len(others)
+    hdr = [None] * width
+    for kn, p in zip(keynames, positions):
+        hdr[p] = kn
+    rest = iter(others)
+    for i in range(width):
+        if i not in positions:
+            hdr[i] = next(rest)
+    return tuple(hdr)
+
+
+def name_schemes(tier, seed):
+    thorough = tier == 'thorough'
+    pool = ['k', 'id', 'i', 'ki', 'kidx', 7] + (['d', '7', 'KID'] if thorough else [])
+    S = []
+
+    def add(form, lhdr, lk, rhdr, rk, kws):
+        if thorough:
+            kws = list(kws) + [dict(kws[0], lprefix='l_', rprefix=7)]
+        S.append(dict(form=form, lhdr=lhdr, lk=list(lk), rhdr=rhdr, rk=list(rk), kw=kws))
+
+    pairs = [(y, z) for y in pool for z in pool if str(y) != str(z)]
+    # A: common key name 'kid' given as key=; C: the same headers joined naturally (no other common field)
+    for x in ['k', 'kidx', 7]:
+        for lpos in (0, 1):
+            lhdr = _place(['kid'], [x], [lpos])
+            for rpos in (0, 1, 2):
+                for y, z in pairs:
+                    rhdr = _place(['kid'], [y, z], [rpos])
+                    add('key', lhdr, [lpos], rhdr, [rpos], [{'key': 'kid'}])
+                    if lpos == 0 and str(x) not in (str(y), str(z)):
+                        add('natural', lhdr, [lpos], rhdr, [rpos], [{}])
+    # B: different key names; the right table has non-key fields named like the LEFT key / like parts of its key
+    for rkey in ['owner_kid', 'ki']:
+        bpool = [n for n in pool + ['kid'] if str(n) != rkey]
+        for x in ['k', 7]:
+            lhdr = ('kid', x)
+            for rpos in (0, 2):
+                for y in bpool:
+                    for z in bpool:
+                        if str(y) == str(z):
+                            continue
+                        rhdr = _place([rkey], [y, z], [rpos])
+                        add('lkey-rkey', lhdr, [0], rhdr, [rpos], [{'lkey': 'kid', 'rkey': rkey}])
+    # D: int-valued header fields selected by their str() name
+    for lf in (7, '7'):
+        for rf in (7, '7'):
+            for rpos in (0, 1, 2):
+                for y, z in [(a, b) for a in ['k', 77, '77', 'x7'] for b in ['k', 77, '77', 'x7'] if a != b]:
+                    add('int-field', _place([lf], ['x'], [0]), [0], _place([rf], [y, z], [rpos]), [rpos],
+                        [{'key': '7'}])
+    # E: compound key whose components are substrings of one another
+    import itertools as _it
+    for y in ['id', 'i', 'ki', 'kidk', 7]:
+        for pos in _it.permutations(range(3), 2):
+            rhdr = _place(['kid', 'k'], [y], list(pos))
+            add('compound', ('kid', 'k', 'x'), [0, 1], rhdr, list(pos), [{'key': ['kid', 'k']}])
+    return S
+
+
+def tagged_table(hdr, keycols, keyvec, tag):
+    """Rectangular table; key cells from keyvec (a compound key repeats the value in every key column); every
+    other cell is tagged with row AND column so that a dropped or misplaced column is visible."""
+    rows = []
+    for i, k in enumerate(keyvec):
+        row = ['%s%d.%d' % (tag, i, c) for c in range(len(hdr))]
+        for c in keycols:
+            row[c] = k
+        rows.append(tuple(row))
+    return [tuple(hdr)] + rows
+
+
+def name_data(tier, seed):
+    """(left key vectors, right key vectors) used under every naming scheme."""
+    from .. import spaces
+    r = spaces.reps(seed)
+    a, b = r['i1'], r['s1']
+    if tier == 'quick':
+        return [(), (a, b)], [(), (a,), (b, a)]
+    return [(), (a,), (a, b), (None, a)], [(), (a,), (b, a), (a, a), (None,)]
